@@ -9,8 +9,10 @@ Property C05, about the model of the non-search part of
    proportional to the target.  It never returns a sequence that evaluates to
    zero or to some other string."
 
-The search procedures of the compiler are NOT modelled.  What is proved, for
-all `N`, `k`, targets and sequences:
+This file is about the validator and the evaluation helpers; the search procedures are
+modelled in `Model/CompilerSearch.lean` and the theorems about them (refutation by a
+kernel-evaluated run, soundness of the verified returns) are in `Properties/C05Search.lean`.
+What is proved here, for all `N`, `k`, targets and sequences:
 
 * `validSeq_sound` — the executable validator `Compiler.validSeq` (run by the
   harness on every sequence the implementation returns) answers `true` exactly
